@@ -259,18 +259,26 @@ def r09_8(ctx):
     folded_conditional_type(ctx)
 
 
+def literal_classes_are_inlined(ctx):
+    """every literal class is printed inline at its uses (no declaration is ever emitted for it: removing one is harmless, and none is
+    declared without being consumed)"""
+    idx = get_index(ctx.env)
+    init = idx.func("RZILTransformer.__init__")
+    inl = [n.value for n in ast.walk(init.node) if isinstance(n, ast.Assign) and U(n.targets[0]) == "self.inlined_pure_classes"]
+    ctx.need(inl, "inlined_pure_classes not found")
+    listed = {U(e) for e in (inl[0].elts if isinstance(inl[0], (ast.Tuple, ast.List)) else [inl[0]])}
+    letvars = set(idx.subclasses("LetVar", strict=True))
+    missing = sorted(c for c in letvars if c not in listed and not any(b in listed for b in idx.mro(c)[1:]))
+    ctx.check("every literal class is inlined (needs no declaration)", not missing, f"{sorted(letvars)} covered by inlined_pure_classes", f"not inlined: {missing}; listed: {sorted(listed)}", fn_where(idx, init))
+
+
 @rule("R09.3", "C09", "removal safety: operands that can have other users (de-duplicated by name) are only removed under a use-count guard", min_instances=4)
 def r09_3(ctx, skip=()):
     from .c11 import add_op_registers_what_it_returns
 
     add_op_registers_what_it_returns(ctx)  # an operand a folder removed is registered again when live code names it later
     idx = get_index(ctx.env)
-    # classes whose removal is harmless: inlined literals (no declaration is ever emitted for them)
-    init = idx.func("RZILTransformer.__init__")
-    inl = [U(n.value) for n in ast.walk(init.node) if isinstance(n, ast.Assign) and U(n.targets[0]) == "self.inlined_pure_classes"]
-    ctx.need(inl, "inlined_pure_classes not found")
-    letvars = set(idx.subclasses("LetVar", strict=True))
-    ctx.check("every literal class is inlined (needs no declaration)", all(c in inl[0] for c in letvars), f"{sorted(letvars)} in inlined_pure_classes", inl[0], fn_where(idx, init))
+    literal_classes_are_inlined(ctx)
     # the folders and every transformer helper they (transitively) hand an operand to
     work = ["simplify_unary_expr", "simplify_arithmetic_expr", "simplify_compare_expr", "simplify_conditional_expr"]
     seen_q = []
